@@ -13,7 +13,8 @@ from mc.vloop import World
 OPS = [("status", 200), ("status", 204), ("status", 304), ("status", 404), ("status", 205), ("hdr2",),
        ("cl", 0), ("cl", -1), ("cl", +1),
        ("hdr",), ("write", b""), ("write", b"a"), ("write", b"hello"),
-       ("flush",), ("finish",), ("finish", b"xy"), ("raise",), ("write", b"<p>compressible</p>" * 80)]
+       ("flush",), ("finish",), ("finish", b"xy"), ("raise",), ("write", b"<p>compressible</p>" * 80),
+       ("finish", {}), ("etag",)]
 GZ_OPS = [17, 11, 13, 14, 15, 3, 9]      # big write, write a, flush, finish, finish xy, 404, X-A
 METHODS = ["GET", "HEAD", "POST"]
 VERSIONS = [("1.1", False), ("1.0", False), ("1.0", True)]
@@ -25,6 +26,10 @@ class Boom(Exception):
     pass
 
 
+def as_bytes(chunk):
+    return b"{}" if chunk == {} else chunk
+
+
 def total_written(prog):
     n = 0
     for i in prog:
@@ -33,7 +38,7 @@ def total_written(prog):
             n += len(op[1])
         elif op[0] == "finish":
             if len(op) > 1:
-                n += len(op[1])
+                n += len(as_bytes(op[1]))
             break
     return n
 
@@ -54,6 +59,8 @@ def make_app(compress=False):
                         self.set_header("Content-Length", str(max(0, tot + op[1])))
                     elif op[0] == "hdr":
                         self.set_header("X-A", "1")
+                    elif op[0] == "etag":
+                        self.set_header("Etag", '"mine"')       # the handler's own validator: never replaced
                     elif op[0] == "hdr2":
                         self.set_header("X-B", "\u20ac")      # cannot be sent (not latin-1): set_header must refuse it
                     elif op[0] == "write":
@@ -166,8 +173,11 @@ def reference(prog, method, version, inm):
             flushed = True
         elif op[0] == "finish":
             if len(op) > 1:
-                body += op[1]
+                body += as_bytes(op[1])
             finished = True
+        elif op[0] == "etag":
+            if flushed:
+                return None
         elif op[0] in ("raise", "hdr2"):
             return None
     if status in (204, 304) and body:
@@ -176,7 +186,8 @@ def reference(prog, method, version, inm):
         return None
     if cl is not None and status in (204, 304):
         return None
-    if not flushed and status == 200 and method in ("GET", "HEAD") and inm:
+    if not flushed and status == 200 and method in ("GET", "HEAD") and inm and not any(OPS[i][0] == "etag" for i in prog):
+        # (a handler that supplies its own Etag also does its own conditional handling)
         status, body = 304, b""
     return status, xa, body
 
@@ -243,6 +254,8 @@ def judge(prog, method, version, keepalive, inm, obs, twin_body_len, twin_ce=Not
             bad.append(("header", "%s: X-A present=%r, expected %r" % (tag, first.get("x-a") is not None, xa)))
         if method != "HEAD" and first.body != body:
             bad.append(("body", "%s: body %r, handler wrote %r" % (tag, first.body[:40], body[:40])))
+        if any(OPS[i][0] == "etag" for i in prog) and first.code in (200, 304) and first.get("etag") != b'"mine"':
+            bad.append(("handler-etag-replaced", "%s: the handler set Etag \"mine\", the response carries %r" % (tag, first.get("etag"))))
     # ---- Connection: Keep-Alive acknowledgement on a connection that closes
     conn = (first.get("connection") or b"").lower()
     if conn == b"keep-alive" and closed and len(rs) == 1 and not rejected:
@@ -254,8 +267,8 @@ class C02(Check):
     id = "C02"
     level = "model_checking"
     rule = ("all handler programs of <= L operations over {set_status(200|204|304|404|205), set_header with a value that cannot be sent, set_header("
-            "Content-Length, right|short|long), set_header(X-A), write(b''|b'a'|b'hello'), flush, finish, "
-            "finish(chunk), raise} x {GET, HEAD, POST} x {HTTP/1.1, HTTP/1.0, HTTP/1.0 + keep-alive} x "
+            "Content-Length, right|short|long), set_header(X-A), write(b''|b'a'|b'hello'|1.5 kB), flush, finish, "
+            "finish(chunk), finish({}), set_header(Etag), raise} x {GET, HEAD, POST} x {HTTP/1.1, HTTP/1.0, HTTP/1.0 + keep-alive} x "
             "{If-None-Match: *, none}, each followed by a pipelined GET probe on the same connection; "
             "state = one (program, request kind) execution; non-trivial = programs containing flush, a "
             "bodiless status, an explicit Content-Length or a raise")
@@ -324,6 +337,8 @@ class C02(Check):
                                          {"prog": list(prog), "method": method, "version": version, "ka": ka,
                                           "inm": False, "gz": True})
 
+    _err_twin = {}
+
     def run_prog(self, app, prog, st):
         interesting = any(OPS[i][0] in ("flush", "cl", "raise") or OPS[i] in (("status", 204), ("status", 304))
                           for i in prog)
@@ -351,6 +366,20 @@ class C02(Check):
                     for sig, msg in bad:
                         st.violation(sig, "program %r: %s" % ([OPS[i] for i in prog], msg),
                                      {"prog": list(prog), "method": method, "version": version, "ka": ka, "inm": inm})
+                    ri = next((k for k, i in enumerate(prog) if OPS[i][0] == "raise"), None)
+                    if (ri is not None and ri > 0 and obs[2] is not None and obs[2][0] == ri and not bad
+                            and not any(OPS[i][0] in ("flush", "finish") for i in prog[:ri])):
+                        # nothing had been flushed when the handler failed: the error response is the one a handler
+                        # gives that fails at once - what was written before is discarded, not sent under the error status
+                        twin_err = self._err_twin.get((method, version, ka, inm))
+                        if twin_err is None:
+                            twin_err = self._err_twin[(method, version, ka, inm)] = execute(
+                                app, (OPS.index(("raise",)),), method, version, ka, inm)[0]
+                        if obs[0] != twin_err and not any(OPS[i][0] in ("status", "hdr", "cl", "etag", "hdr2") for i in prog[:ri]):
+                            st.violation("error-page-after-unflushed-writes",
+                                         "program %r %s HTTP/%s: wire %r, a handler that raises at once gives %r"
+                                         % ([OPS[i] for i in prog], method, version, obs[0][-70:], twin_err[-70:]),
+                                         {"prog": list(prog), "method": method, "version": version, "ka": ka, "inm": inm})
                     if (streams and method != "HEAD" and not bad and obs[2] is None
                             and reference(prog, method, version, inm) is not None):
                         # same execution against a peer that drains 7 bytes per loop round
